@@ -1,6 +1,7 @@
 package props
 
 import (
+	"context"
 	"fmt"
 	"runtime"
 	"sort"
@@ -127,6 +128,48 @@ func c02Twins(c fw.Case) *fw.Result {
 	}
 	var wg sync.WaitGroup
 	start := make(chan struct{})
+	// One more goroutine plays the impatient user next to them: it starts a scan, reads a few
+	// objects, cancels the context while the reader is inside a (slow) Read and — without
+	// waiting for that scan to wind down — starts the next one, whose first objects it checks.
+	// The abandoned scanners are closed at the very end. Whatever a stopped scan still holds
+	// must not reach any other scan.
+	if len(jobs) > 0 {
+		wg.Add(1)
+		go func() {
+			defer wg.Done()
+			<-start
+			j := jobs[0]
+			var abandoned []*osmpbf.Scanner
+			defer func() {
+				for _, s := range abandoned {
+					s.Close()
+				}
+			}()
+			for round := 0; round < 12; round++ {
+				ctx, cancel := context.WithCancel(context.Background())
+				rd := mon.NewReader(j.data)
+				rd.Chunk = 512
+				rd.DelayAt = map[int64]time.Duration{}
+				for off := int64(2048); off < int64(len(j.data)); off += 2048 {
+					rd.DelayAt[off] = 300 * time.Microsecond
+				}
+				s := osmpbf.New(ctx, rd, []int{1, 2, 4, 11}[round%4])
+				k := 0
+				for k < 3+round && s.Scan() {
+					if k < len(j.want) {
+						if d := pbfw.Compare(j.want[k], s.Object()); d != "" {
+							res.Violatef("C02/twins/after-abandoned-scan", "round %d: object #%d of a scan started right after another scan had been cancelled: %s", round, k, d)
+							break
+						}
+					}
+					k++
+				}
+				cancel()
+				abandoned = append(abandoned, s)
+			}
+			res.Add("abandoned_scans", 12)
+		}()
+	}
 	for i, j := range jobs {
 		wg.Add(1)
 		go func(i int, j job) {
@@ -394,12 +437,13 @@ func c02Cases(tier string, seed uint64) []fw.Case {
 	}
 	add("race", nRace)
 	add("plain", nPlain)
+	add("nocgo", nPlain/5) // the pure-Go zlib back end under the same schedules
 	ntw := 8
 	if tier == "thorough" {
 		ntw = 80
 	}
 	for i := 0; i < ntw; i++ {
-		cs = append(cs, fw.Case{Kind: "twins", Variant: []string{"race", "plain"}[i%2], Seed: gen.Sub(seed, "c02twins", i), P: map[string]int64{"scanners": int64(3 + i%6)}})
+		cs = append(cs, fw.Case{Kind: "twins", Variant: []string{"race", "plain", "nocgo", "race"}[i%4], Seed: gen.Sub(seed, "c02twins", i), P: map[string]int64{"scanners": int64(3 + i%6)}})
 	}
 	return fw.Number(cs)
 }
@@ -408,7 +452,7 @@ func init() {
 	fw.Register(&fw.Prop{
 		ID:    "C02",
 		Level: "exploration",
-		Rule: "PRNG files of 12-60 small mixed blocks, a thirtieth of them with blocks of 8001-16001 elements (a fifth of them without header block, i.e. resumed streams); decoder counts {1,2,3,4,7,10,11,16,32}; perturbation plans {none, reverse staircase, one slow worker, slow reader, slow consumer, bursty, random, Gosched storm} injected in the reader's Read, the decoders' filter callbacks and the consumer loop; GOMAXPROCS {default,1,2,16}; half the runs under the race detector; in half the runs the consumer appends to the tag, node and member lists of every object it is handed (what it owns must not be visible in any other object); plus 3-8 scanners over different files running concurrently in one process. " +
+		Rule: "PRNG files of 12-60 small mixed blocks, a thirtieth of them with blocks of 8001-16001 elements (a fifth of them without header block, i.e. resumed streams); decoder counts {1,2,3,4,7,10,11,16,32}; perturbation plans {none, reverse staircase, one slow worker, slow reader, slow consumer, bursty, random, Gosched storm} injected in the reader's Read, the decoders' filter callbacks and the consumer loop; GOMAXPROCS {default,1,2,16}; half the runs under the race detector, a tenth with the pure-Go zlib back end; in half the runs the consumer appends to the tag, node and member lists of every object it is handed (what it owns must not be visible in any other object); plus 3-8 scanners over different files running concurrently in one process, next to a goroutine that keeps cancelling scans mid-Read and starting new ones at once. " +
 			"Schedules are sampled, not enumerated. Signature = (decoders, plan, GOMAXPROCS, run had a completion inversion, consumer overlapped a later block's decoding); the evidence also counts distinct block-completion permutations.",
 		Assumptions: []string{
 			"filter callbacks always return true here, so the sequence must equal the unfiltered model sequence",
